@@ -27,6 +27,26 @@ CHECKS = {
         'own YaqlEngine over the read-only tables of a pristine template '
         '(validated per run against factory-fresh engines on the text pool); '
         'scheduling points are token fetches', 'DESIGN.md section 2, C01'),
+    'C07': (
+        'library-wide canary sweep (logging host object in every parameter '
+        'position, every access form, call()) with an invariant over the '
+        'access log and outputs; Hypothesis-generated yaqlization settings '
+        'against a policy model',
+        'Generated-input search: (a) all definitions of the default context x '
+        'every visible parameter position x fillings with attack strings, 90 '
+        'member/index/operator forms x 11 member names, call(name, ...) x 6 '
+        'argument shapes for every registered name; invariant: the only '
+        'attribute names a non-yaqlized object is asked for are __class__, '
+        '__yaqlization__, __unwrapped__, never __getitem__/__call__, and the '
+        'secret marker never appears in results or exception texts; (b) '
+        'settings (3 switches, string/regex/predicate list entries, '
+        'remappings with argument maps, on instance or class) x member names '
+        'x 3 forms: denied => no touch and an error, allowed => exactly one '
+        'touch of exactly the predicted member. Enumerated sweep, sampled '
+        'policy.',
+        'the canary sees only what reaches __getattribute__/__getitem__/'
+        '__call__; type-slot lookups by CPython itself are outside',
+        'DESIGN.md section 2, C07'),
     'C08': (
         'library-wide sweep with an instrumented endless source in every '
         'parameter position, boundary result shapes, pipelines over endless '
